@@ -126,11 +126,11 @@ def build(run: Run):
         return cache["d"]
 
     def name_of(f):
-        return f"value_diff:{f['kind']}:{f['program']}"
+        return f"value_diff:{f['kind']}:{f['program']}" + (f":{f['note']}" if f.get("note") else "")
 
     def replay(o):
         d = vd()
-        fl = [f for f in d.get("failures", []) if not any(re.search(k["obligation"], name_of(f)) or (k.get("companion") and re.search(k["companion"], f.get("source", "") + f["what"])) for k in known)]
+        fl = [f for f in d.get("failures", []) if not any(re.search(k["obligation"], name_of(f)) for k in known)]
         if fl:
             f = fl[0]
             return {"reproduced": True, "failing_input_hex": f["bytes"], "program": f["program"], "what": f["what"], "decompiled": f.get("source"),
@@ -195,7 +195,7 @@ def build(run: Run):
     for f in d.get("failures", []):
         f = dict(f)
         f["name"] = name_of(f)
-        k = next((k for k in known if re.search(k["obligation"], f["name"]) or (k.get("companion") and re.search(k["companion"], f.get("source", "") + f["what"]))), None)
+        k = next((k for k in known if re.search(k["obligation"], f["name"])), None)
         if k is not None:
             if k["what"] not in hits:
                 hits.append(k["what"])
